@@ -837,6 +837,8 @@ impl Database {
         // The version check and the write happen under one write lock, so two writers
         // presenting the same base version can never both succeed
         let new_version = {
+            #[cfg(feature = "verif")]
+            crate::verif::point("db.map:set_value");
             let mut db = self.map.write().unwrap();
             let old_value = db.get(&change.key).cloned();
             if let Some(old_version) = old_value {
